@@ -500,8 +500,30 @@ def concat(a, b):
     sa, sb = to_sseq(a), to_sseq(b)
     sa, sb = _coerce_pair(sa, sb)
     j = z3.Int('j!c')
+    # x + p1 + p2 + ... with pieces of concrete length: ONE case split between x and a small array holding all the pieces
+    # (instead of one nested if-then-else per piece)
+    nb = z3.simplify(sb.n)
+    if z3.is_int_value(nb) and nb.as_long() <= 64 and sa.ek == sb.ek:
+        elems = [z3.simplify(z3.Select(sb.arr, sb.off + i)) for i in range(nb.as_long())]
+        base, tail = sa, []
+        reg = _CONCAT_TAIL.get(sa.arr.get_id())
+        if reg is not None and reg[0].eq(sa.arr) and z3.is_int_value(z3.simplify(sa.off)) and z3.simplify(sa.off).as_long() == 0 \
+                and z3.simplify(sa.n - (reg[1].n + len(reg[2]))).eq(z3.IntVal(0)):
+            base, tail = reg[1], list(reg[2])
+        tail = tail + elems
+        tarr = z3.K(I, elems[0] if elems else z3.IntVal(0)) if sa.ek in ('char', 'int') else None
+        if tarr is not None:
+            for i, e in enumerate(tail):
+                tarr = z3.Store(tarr, i, e)
+            arr = LAM(j, z3.If(j < base.n, z3.Select(base.arr, j + base.off), z3.Select(tarr, j - base.n)))
+            out = SSeq(arr, 0, z3.simplify(base.n + len(tail)), kind, sa.ek)
+            _CONCAT_TAIL[arr.get_id()] = (arr, base, tail)
+            return out
     arr = LAM(j, z3.If(j < sa.n, z3.Select(sa.arr, j + sa.off), z3.Select(sb.arr, j - sa.n + sb.off)))
     return SSeq(arr, 0, z3.simplify(sa.n + sb.n), kind, sa.ek)
+
+
+_CONCAT_TAIL = {}
 
 
 def _has_sym(v):
@@ -822,7 +844,18 @@ def to_sset(s, ek='int'):
 
 
 def fmt_percent(fmt, args):
-    """'%s...' % args: only the fact that it is *some* string matters (messages)"""
+    """'...%s...' % args with only %s directives and string arguments of which one is symbolic: the concatenation of the
+    literal pieces and the arguments.  Anything else (number formatting in messages): only the fact that it is *some* string matters"""
+    tup = args if isinstance(args, tuple) else (args,)
+    parts = fmt.split('%s')
+    if len(parts) - 1 == len(tup) and '%' not in ''.join(parts) and all(isinstance(a, (str, SChar, SSeq)) for a in tup) and \
+            any(isinstance(a, (SChar, SSeq)) for a in tup) and all(not isinstance(a, SSeq) or a.kind == 'str' for a in tup):
+        out = parts[0]
+        for a, lit in zip(tup, parts[1:]):
+            out = a if (isinstance(out, str) and out == '') else concat(out, a)
+            if lit:
+                out = concat(out, lit)
+        return out
     return Opaque('formatted-string')
 
 
